@@ -142,6 +142,8 @@ type Case struct {
 	// TwinRef, when set, is the unbroken case this one was derived from (same PKI, same options): the monitors
 	// also verify [twin, this case] through one re-used Options value. Not serialised.
 	TwinRef *Case `json:"-"`
+	// ShadowSkip exempts the case from the generic shadow run (cost control); TwinRef stays usable by property-specific monitors.
+	ShadowSkip bool `json:"-"`
 }
 
 func (c *Case) Clone() *Case {
